@@ -263,12 +263,19 @@ Definition worker (c : comp) (P : params) (bf : bool) (B : list task) : list emi
   if raises c P bf B then (pre, true)
   else (pre ++ run_phases (post_ph c P) B, false).
 
+(* Popen.is_canceled: a task canceled at the executor's intake already holds
+   the slots the scheduler gave it; they are released right after CANCELED
+   is published (AGENT_UNSCHEDULE_PUBSUB) *)
+Definition releases (c : comp) : bool := match c with CAExec => true | _ => false end.
+Definition rel_em (rel : bool) (e0 : list emi) : list emi :=
+  flat_map (fun e => e :: (if rel then [Unsched (emi_uid e)] else [])) e0.
+
 (* BaseComponent.work_cb on one bulk: new cancel list, emissions *)
 Definition work_cb (c : comp) (P : params) (cl : list Z) (B : list task) (bf : bool)
   : list Z * list emi :=
   let '(cl', K, e0) := intake cl B in
   let '(e1, r) := worker c P bf K in
-  (cl', e0 ++ e1 ++ (if r then map (fun t => pubf (fail t)) K else [])).
+  (cl', rel_em (releases c) e0 ++ e1 ++ (if r then map (fun t => pubf (fail t)) K else [])).
 
 Definition held (c : comp) (P : params) (cl : list Z) (B : list task) (bf : bool) : list Z :=
   match c with
